@@ -10036,6 +10036,9 @@ class Parser:
             privilege_parts.append(self._curr.text.upper())
             self._advance()
 
+        if not privilege_parts:
+            return None
+
         this = exp.var(" ".join(privilege_parts))
         expressions = (
             self._parse_wrapped_csv(self._parse_column)
@@ -10073,7 +10076,7 @@ class Parser:
 
         privileges, kind, securable = self._parse_grant_revoke_common()
 
-        if not securable or not self._match_text_seq("TO"):
+        if not privileges or not securable or not self._match_text_seq("TO"):
             return self._parse_as_command(start)
 
         principals = self._parse_csv(self._parse_grant_principal)
@@ -10100,7 +10103,7 @@ class Parser:
 
         privileges, kind, securable = self._parse_grant_revoke_common()
 
-        if not securable or not self._match_text_seq("FROM"):
+        if not privileges or not securable or not self._match_text_seq("FROM"):
             return self._parse_as_command(start)
 
         principals = self._parse_csv(self._parse_grant_principal)
